@@ -7,6 +7,18 @@ hook_commits = subprocess.run(['git','-C','/repo','log','--format=%H','--grep=^v
 
 # id -> (technique, level text, level_note, design_ref)
 CLAIMED = {
+ "C02": ("rapid property-based differential testing against a definitional interpreter (refjs) plus metamorphic testing under a catalogue of semantics-preserving rewrites",
+         "Closed programs in the subset J0 are generated as ASTs, printed for goja and interpreted directly by refjs, an environment-record/completion-record interpreter written from ECMA-262; log sequence, completion value and exception must be equal in strict and sloppy mode and in global, function and direct-eval placement. Independently of refjs, 1-3 rewrites per program (constant -> variable, closure capture of every identifier, dynamic scope via a dead direct eval, dead code after break, function expression -> direct eval of its own source, block wrap) must leave goja's observation unchanged; the hook VerifDumpTypes measures whether a rewrite really changed the emitted instruction types.",
+         "Trusted: refjs for the definitional half (validated against goja on ~100k programs with every disagreement triaged against the specification; the metamorphic half does not depend on it). Generator restrictions that exist only because of known goja findings are switchable and counted under excluded; each known finding is kept visible by a fixed probe. J0 excludes Annex B function-in-block semantics, private names, tagged templates, regex, BigInt and most built-ins.",
+         "DESIGN.md 4/C02"),
+ "C06": ("rapid property-based differential testing of string producers against a UTF-16 reference evaluator (strref), with representation-crossing pairs and ~90 observers",
+         "Pairs of SSA scripts (operator trees of depth <= 4 over 30+ String operations with string and escaped-literal RegExp arguments) are generated so that strref assigns both the same code-unit sequence while leaves and route edits cross goja's three string representations (ASCII, UTF-16, lazily imported Go string on both sides of 16 bytes). Every step is compared unit-wise with the model and with a literal twin; the final pair goes through JS observers (equality, SameValue, order, Map/Set/property/Symbol keys, array-index use, search, code points), Go-API observers (Export/ExportTo/String with the documented U+FFFD replacement, StringFromUTF16, DefineDataProperty/map keys) and cross-representation twins; normalize is judged through UAX#15 invariants.",
+         "Trusted: strref (hand-written from ECMA-262, closed case-mapping alphabet), the VerifStrRepr hook (classification only). Excluded: JSON.parse of unpaired surrogates (README-documented), Go strings with invalid UTF-8, regex arguments containing U+FFFF (known regexp2 defect, kept visible by a probe).",
+         "DESIGN.md 4/C06"),
+ "C19": ("rapid grammar-based differential testing against an independent JSON reference (jsonref): ECMA-404 recogniser/exact-decimal parser, SerializeJSONProperty/QuoteJSONString and InternalizeJSONProperty models",
+         "Valid JSON texts from a grammar (nesting <= 8, every escape form, white space everywhere, long mantissas/exponents, duplicate and __proto__ keys), all single-edit corruptions (random and a deterministic sweep over 20 texts), non-string inputs and a reviver catalogue are parsed by goja and by jsonref: acceptance/error class and the structural dump (exact number bits, key order, attributes, code units) must be equal. Generated values (holes, boxed primitives, -0/non-finite, BigInt, symbols, toJSON variants, proxies, cycles) x replacers x indents are stringified and compared with the modelled output text; round-trip, canonical-form and MarshalJSON laws are checked.",
+         "Trusted: jsonref (no encoding/json) and numref.DecimalToFloat. toJSON/replacer/reviver behaviour is quantified over a fixed catalogue; proxies are transparent only. Known finding: a lone surrogate in the gap string comes out as U+FFFD. Lone surrogates in parse input are excluded as documented in the README.",
+         "DESIGN.md 4/C19"),
  "C07": ("rapid stateful/model-based testing with a twin differential: array histories on the array, on a sparse-forced twin and on esmodel (array exotic object + generic Array.prototype algorithms); sort judged by a stable-sort reference and permutation validity",
          "Array histories of up to 30 steps (indexed writes/deletes/defines incl. accessors and non-configurable elements, length changes incl. invalid values and shrinking across non-configurable elements, freeze/seal, indexed properties on the prototypes, bulk fills that cross the dense<->sparse switching thresholds, 27 Array.prototype methods incl. callbacks that resize the receiver) are executed on the array, on a twin that was forced into sparse storage, and on esmodel's spec algorithms; results, accessor call logs and complete states must agree three ways after every step. Sort: element lists with holes/undefined/duplicates x 18 comparators x dense/sparse/array-like receivers against the unique stable order, a permutation predicate for inconsistent comparators, and crash-freedom for mutating ones.",
          "Trusted: esmodel's array algorithms (from ECMA-262 23.1.3). The hook VerifArrayKind is used only to measure that storage transitions really happened. Known finding: a comparator result of -0 is treated as 'less' (pinned test demands it). Go slice wrappers are judged by C13.",
